@@ -1432,7 +1432,9 @@ Proof.
   destruct a as [|[q n] a]; [exact Ha|]. exfalso. apply (Hl q n). cbn [alook]. rewrite N.eqb_refl. reflexivity.
 Qed.
 
-(* the discipline of the pinned code generator is NOT balanced on all programs: faithful witnesses *)
+(* programs that were unbalanced under the discipline of the originally pinned code generator (self-assignment,
+   loop conditions / bounds / headers with temporaries, continue, return out of such loops): after the repairs
+   6711de1 2f9971e bf84b8a 597753d the re-synchronised compile yields accepted, balanced code for all of them *)
 Definition wit_self_assign : program := mkProg [] (SSeq (SDecl 0%nat (ELit 6)) (SAssign 0%nat (EVar 0%nat))).
 Definition wit_while_cond : program := mkProg [] (SWhile (EUse1 (ELit 4)) (SBlock SSkip)).
 Definition wit_for_bound : program := mkProg [] (SFor EPrim (EUse1 (ELit 4)) EPrim false 2%nat (SBlock SSkip)).
@@ -1444,29 +1446,7 @@ Definition wit_return_in_while : program :=
   mkProg [mkFun [] true (SSeq (SWhile (EUse1 (ELit 4)) (SBlock (SReturn (Some (ELit 2))))) (SReturn (Some (ELit 3))))]
          (SExpr (ECall 0%nat ANil)).
 
-Lemma unbalanced_witness : forall P fuel oracle,
-  (match run_program fuel oracle P with Some L => negb (balancedb L) | None => false end) = true ->
-  exists L, run_program fuel oracle P = Some L /\ ~ balanced L.
-Proof.
-  intros P fuel oracle H. destruct (run_program fuel oracle P) as [L|]; [|discriminate H].
-  exists L. split; [reflexivity|]. intro HB. apply balancedb_correct in HB. rewrite HB in H. discriminate H.
-Qed.
-
-Theorem program_balanced_refuted :
-  (exists L, run_program 5%nat [true; true; false] wit_while_cond = Some L /\ ~ balanced L) /\
-  (exists L, run_program 5%nat [] wit_for_bound = Some L /\ ~ balanced L) /\
-  (exists L, run_program 5%nat [] wit_continue_header = Some L /\ ~ balanced L) /\
-  (exists L, run_program 5%nat [] wit_continue_foreach = Some L /\ ~ balanced L) /\
-  (exists L, run_program 5%nat [true] wit_return_in_while = Some L /\ ~ balanced L).
-Proof. repeat split; apply unbalanced_witness; vm_compute; reflexivity. Qed.
-
-(* ... and the static discipline rejects exactly these *)
-Lemma witnesses_rejected :
-  map program_ok [wit_while_cond; wit_for_bound; wit_continue_header; wit_continue_foreach; wit_return_in_while]
-  = [false; false; false; false; false].
-Proof. vm_compute. reflexivity. Qed.
-
-(* since the repair of VisitAssignStmt (a non-temporary right side is copied before the target is freed),
-   assigning a variable to itself is balanced and accepted *)
-Lemma self_assign_accepted : program_ok wit_self_assign = true.
+Lemma former_witnesses_accepted :
+  map program_ok [wit_self_assign; wit_while_cond; wit_for_bound; wit_continue_header; wit_continue_foreach; wit_return_in_while]
+  = [true; true; true; true; true; true].
 Proof. vm_compute. reflexivity. Qed.
